@@ -71,7 +71,7 @@ CONTRACTS = [
              modifies=["list@self._returncodes", "g_appends", "g_writes", "g_pops", "g_reads"],
              ensures=[C("counters", "pipe_inv(self) and g_pops == g_reads"), C("one_completion_consumed", "g_pops == old(g_pops) + 1")]),
 
-    Contract(F + "::SigchldHelper._handler", params={"sig": "any", "frame": "any"}, props=["C09", "C03", "C06"],
+    Contract(F + "::SigchldHelper._handler", params={"sig": "any", "frame": "any"}, props=["C09", "C03", "C06", "C01"],
              locals={"pid": "int", "status": "int"},
              requires=[C("counters", "pipe_inv(g_handler_self) and g_handler_self._write_pipe is not None")],
              prefer_ext={"SigchldHelper.instance": "SigchldHelper.instance(handler)"},
